@@ -517,6 +517,12 @@ func vmValueEqual(f protoreflect.FieldDescriptor, a, b protoreflect.Value, tag s
 		verifAssert(a.Bool() == b.Bool(), "same-bool"+tag)
 	case protoreflect.EnumKind:
 		verifAssert(a.Enum() == b.Enum(), "same-enum"+tag)
+	case protoreflect.BytesKind:
+		verifAssert(string(a.Bytes()) == string(b.Bytes()), "same-bytes"+tag)
+	case protoreflect.Uint32Kind, protoreflect.Fixed32Kind, protoreflect.Uint64Kind, protoreflect.Fixed64Kind:
+		verifAssert(a.Uint() == b.Uint(), "same-uint"+tag)
+	case protoreflect.FloatKind, protoreflect.DoubleKind:
+		// not compared (float values are opaque to the engine)
 	default:
 		verifAssert(a.Int() == b.Int(), "same-int"+tag)
 	}
